@@ -450,3 +450,50 @@ func BuildSnippet(src string) (*ssa.Package, error) {
 	sp, _, err := ssautil.BuildPackage(&types.Config{}, fset, pkg, []*ast.File{file}, 0)
 	return sp, err
 }
+
+// MustPassBefore reports whether every path that starts just after instruction `from` meets an
+// instruction satisfying goal before it meets one satisfying stop or leaves the function by a Return
+// (panics are not exits). Edges for which skipEdge returns true are not followed. Cycles that avoid
+// both goal and stop are accepted (they never reach a stop).
+func MustPassBefore(from ssa.Instruction, goal, stop func(ssa.Instruction) bool, skipEdge func(b, s *ssa.BasicBlock) bool) (bool, ssa.Instruction) {
+	seen := map[*ssa.BasicBlock]bool{}
+	var bad ssa.Instruction
+	var walk func(b *ssa.BasicBlock, start int) bool
+	walk = func(b *ssa.BasicBlock, start int) bool {
+		for _, ins := range b.Instrs[start:] {
+			if goal(ins) {
+				return true
+			}
+			if stop(ins) {
+				bad = ins
+				return false
+			}
+			if _, isRet := ins.(*ssa.Return); isRet {
+				bad = ins
+				return false
+			}
+		}
+		for _, s := range b.Succs {
+			if skipEdge != nil && skipEdge(b, s) {
+				continue
+			}
+			if seen[s] {
+				continue
+			}
+			seen[s] = true
+			if !walk(s, 0) {
+				return false
+			}
+		}
+		return true
+	}
+	b := from.Block()
+	idx := 0
+	for i, ins := range b.Instrs {
+		if ins == from {
+			idx = i + 1
+		}
+	}
+	ok := walk(b, idx)
+	return ok, bad
+}
